@@ -181,14 +181,14 @@ func VH_C01_concurrent_snapshot() {
 		}
 		verifParStart(make(chan struct{}), fs...)
 		for _, snap := range snaps {
-			verifAssert("C01.concurrent.snapshot-length", len(snap) == n)
+			verifAssert("C01.concurrent.snapshot-length|C03.concurrent.snapshot-length|C09.concurrent.snapshot-length", len(snap) == n)
 			complete := len(snap) == n
 			for _, el := range snap {
 				if el == nil {
 					complete = false
 				}
 			}
-			verifAssert("C01.concurrent.snapshot-complete", complete)
+			verifAssert("C01.concurrent.snapshot-complete|C03.concurrent.snapshot-complete|C09.concurrent.snapshot-complete", complete)
 		}
 	}
 	verifReach("C01.concurrent.done", true)
@@ -218,7 +218,7 @@ func VH_C01_snapshot_symbolic() {
 		client = netip.AddrFrom4([4]byte{b[0], b[1], b[2], b[3]})
 	}
 	snap := cl.SnapshotForClientIP(client)
-	verifAssert("C01.symsnap.length", len(snap) == n)
+	verifAssert("C01.symsnap.length|C03.symsnap.length|C09.symsnap.length", len(snap) == n)
 	if len(snap) != n {
 		return
 	}
@@ -228,11 +228,11 @@ func VH_C01_snapshot_symbolic() {
 		pos[i] = -1
 		for j := range snap {
 			if snap[j] != nil && snap[j].Value.(*CipherEntry) == entries[i] {
-				verifAssert("C01.symsnap.once", pos[i] == -1)
+				verifAssert("C01.symsnap.once|C03.symsnap.once|C09.symsnap.once", pos[i] == -1)
 				pos[i] = j
 			}
 		}
-		verifAssert("C01.symsnap.present", pos[i] >= 0)
+		verifAssert("C01.symsnap.present|C03.symsnap.present|C09.symsnap.present", pos[i] >= 0)
 	}
 	for i := 0; i < n; i++ {
 		for j := i + 1; j < n; j++ {
